@@ -27,13 +27,24 @@ func NewVarPool() *VarPool {
 
 func (p *VarPool) GetName(baseName string) string {
 	count := p.vars[baseName]
-	p.vars[baseName] = count + 1
-
 	if count == 0 {
+		p.vars[baseName] = 1
 		return baseName
 	}
 
-	return fmt.Sprintf("%s%d", baseName, count-1)
+	// A suffixed candidate may already be taken (a user identifier "foo0", or
+	// an earlier request for the base name "foo0"): skip taken candidates and
+	// record the one that is handed out.
+	for {
+		name := fmt.Sprintf("%s%d", baseName, count-1)
+		count++
+
+		if p.vars[name] == 0 {
+			p.vars[baseName] = count
+			p.vars[name] = 1
+			return name
+		}
+	}
 }
 
 func (p *VarPool) Get(t types.Type) string {
@@ -43,19 +54,7 @@ func (p *VarPool) Get(t types.Type) string {
 }
 
 func (p *VarPool) GetChannel(t types.Type) string {
-	name := p.getBaseName(t) + "Ch"
-
-	count, ok := p.vars[name]
-	if !ok {
-		count = 0
-	}
-	p.vars[name] = count + 1
-
-	if count == 0 {
-		return name
-	}
-
-	return fmt.Sprintf("%s%d", name, count-1)
+	return p.GetName(p.getBaseName(t) + "Ch")
 }
 
 // getTypeBaseName extracts a base name from a type for argument naming
